@@ -31,7 +31,11 @@ R4 executor: every step runs as a task wrapped by `_handle_exception`; its gener
    checks *every* step for FAILED/CANCELLED (P10) and raises before any normal return, its catch-all handler
    closes and re-raises; `_wait_outputs` cancels the pending output tasks (the `asyncio.wait` remainder) on a
    FAILED/CANCELLED termination token and closes when the last output port terminated; `_cancel` cancels
-   every given task and marks the executor closed.
+   every given task and marks the executor closed.  Spelling-agnostic: the Status tests (here and in R5) are decomposed into
+   branch atoms (sfverif.facts) and the edge taken *exactly* for FAILED/CANCELLED is looked up on either side (swapped
+   branches under `not` / `not in`, guard clauses, `and`-joined with the termination test); any further conjunct on that
+   edge, or no such edge, is a violation.  `closed()` may return the flag through temporaries (reaching definitions, bound
+   3) as long as no suspension point lies between the copy and the return and every path returns.
 R5 `ExecuteStep.run`: both places that record a status (termination branch, job-result branch) cancel
    *all* unfinished tasks when that status is FAILED or CANCELLED (P10 + P11); `ExecuteStep._run_job`
    returns its status variable and every exception handler leaves FAILED/CANCELLED in it (reaching
@@ -69,6 +73,8 @@ import ast
 import itertools
 
 from ..cfg import ALL, NORMAL
+from ..dataflow import _def_node_ids, reaching_defs
+from ..facts import atoms, facts_at
 from ..model import contains_await, dotted, parent, ancestors, unparse, walk_no_nested
 from ..selftest import V
 from ._util_B import (
@@ -814,14 +820,6 @@ def _steps_values(e):
     return map_view(e, "values", lambda x: isinstance(x, ast.Attribute) and x.attr == "steps" and is_self_attr(x.value, "workflow"))
 
 
-def _fail_test(p, f, test, subject_pred):
-    r = fold_status_guard(p, f, test)
-    if r is None:
-        return None
-    subj, truth = r
-    return truth if subject_pred(subj) else None
-
-
 def r4(ctx):
     p = ctx.prog
     run = p.func(f"{EXEC}.run")
@@ -900,9 +898,10 @@ def r4(ctx):
     ctx.ob("R4", "close() marks the executor closed after terminating the steps", marks, func=cl, node=cl.node, instance="close:mark",
            message="close() does not set `_closed` after the terminations: executor.run keeps polling output ports that will never deliver")
     cd = p.func(f"{EXEC}.closed")
-    rets = [n for n in cd.body_nodes() if isinstance(n, ast.Return)]
-    ctx.ob("R4", "closed() reports the `_closed` flag", bool(rets) and all(r.value is not None and is_self_attr(r.value, "_closed") for r in rets),
-           func=cd, node=cd.node, instance="closed:flag", message="closed() does not return self._closed: the output loop of executor.run cannot end (or ends early)")
+    cd_ok, cd_why = _returns_flag(cd, "_closed")
+    ctx.ob("R4", "closed() reports the `_closed` flag", cd_ok,
+           func=cd, node=cd.node, instance="closed:flag",
+           message=f"closed() does not return self._closed ({cd_why}): the output loop of executor.run cannot end (or ends early)")
     # (d) run raises on FAILED/CANCELLED
     checks = []
     for lp in loops:
@@ -910,13 +909,15 @@ def r4(ctx):
         for n in g.nodes.values():
             if n.kind != "test" or not any(x is n.ast for x in ast.walk(lp)):
                 continue
-            truth = _fail_test(p, run, n.ast, lambda s: s == f"{v}.status")
-            if truth is None:
+            relevant, edge, rest = _failing_edge(p, run, n.ast, lambda s: s == f"{v}.status")
+            if not relevant:
                 continue
-            raises = any(g.nodes[b].kind == "raise_stmt" for b in g.reach(branch_succ(g, n.id, "t"), avoid=g.ids_of(lp), include_src=True))
+            # the edge taken exactly for FAILED/CANCELLED (no further condition) must raise, whichever branch that is
             heads = g.ids_of(lp)
+            fsucc = [b for b in branch_succ(g, n.id, edge) if b not in heads] if edge is not None and not rest else []
+            raises = bool(fsucc) and any(g.nodes[b].kind == "raise_stmt" for b in g.reach(fsucc, avoid=heads + [n.id], include_src=True))
             uncond = all(s == n.id or g.path(s, heads, avoid=[n.id]) is None for s in branch_succ(g, heads[0], "t"))
-            checks.append((n, lp, truth == FAILING and raises and uncond))
+            checks.append((n, lp, raises and uncond))
     # the statuses are inspected only after the step tasks finished / the executor was closed
     waits = [n.id for n in g.nodes.values() if any(
         isinstance(x, ast.Await) and isinstance(x.value, ast.Call) and (
@@ -953,13 +954,21 @@ def r4(ctx):
     for n in wg.nodes.values():
         if n.kind != "test":
             continue
-        truth = _fail_test(p, wo, n.ast, lambda s: s.endswith(".value"))
-        if truth is None:
+        # the edge taken exactly for a FAILED/CANCELLED termination token, however the test is spelled (branches swapped
+        # under `not`, guard clause, joined with the termination test by `and`)
+        relevant, edge, rest = _failing_edge(p, wo, n.ast, lambda s: s.endswith(".value"))
+        if not relevant:
             continue
-        tsucc = branch_succ(wg, n.id, "t")
+        if edge is None:
+            found.append((n, False))
+            continue
+        tsucc = branch_succ(wg, n.id, edge)
         cancels = [i for i in wg.reach(tsucc, include_src=True, avoid=[n.id]) if any(self_call(c, "_cancel") and _awaited(c) for c in wg.nodes[i].calls())]
         must = bool(cancels) and all(wg.path(s, [wg.exit], avoid=cancels) is None for s in tsucc if s not in cancels)
-        guarded = any(t.kind == "test" and has_termination_test(p, wo, t.ast) and wg.dominates(t.id, n.id) for t in wg.nodes.values())
+        # the status is read from a termination token: that fact holds on every path reaching the test (or is part of it),
+        # and the test has no further condition under which a failed token would take the other edge
+        guarded = all(v and _term_atom(p, wo, a) for a, v in rest) and any(
+            v and _term_atom(p, wo, a) for a, v in list(facts_at(wg, n.id)) + rest)
         pend = set()
         for a in [x for x in wo.body_nodes() if isinstance(x, ast.Assign) and isinstance(x.targets[0], ast.Tuple) and len(x.targets[0].elts) == 2]:
             v = strip_cast(a.value)
@@ -968,30 +977,118 @@ def r4(ctx):
         arg_ok = bool(cancels) and all(
             len(c.args) == 1 and isinstance(c.args[0], ast.Name) and c.args[0].id in pend
             for i in cancels for c in node_calls(wg, wg.nodes[i]) if self_call(c, "_cancel"))
-        found.append((n, truth == FAILING and must and guarded and arg_ok))
+        found.append((n, must and guarded and arg_ok))
     ctx.ob("R4", "_wait_outputs cancels the pending output tasks on a FAILED/CANCELLED termination token", bool(found) and all(o for _, o in found),
            func=wo, node=(found[0][0].ast if found else wo.node), instance="_wait_outputs:cancel",
            message="_wait_outputs keeps waiting on the other output ports after a FAILED/CANCELLED termination token")
     # all output ports terminated -> close
     ok = False
     for n in wg.nodes.values():
-        if n.kind != "test" or not (isinstance(n.ast, ast.Compare) and len(n.ast.ops) == 1):
+        if n.kind != "test":
             continue
-        a, b = n.ast.left, n.ast.comparators[0]
+        # the edge on which "all output ports were received" holds: `==` on the true edge, `!=` / `not ==` on the false edge
+        cmp_, edge = None, None
+        for kind in ("t", "f"):
+            ats = atoms(n.ast, kind == "t")
+            if len(ats) == 1 and ats[0][1] and isinstance(ats[0][0], ast.Compare) and len(ats[0][0].ops) == 1:
+                cmp_, edge = ats[0][0], kind
+        if cmp_ is None:
+            continue
+        a, b = cmp_.left, cmp_.comparators[0]
         rec = lambda x: is_len_of(x, lambda y: is_self_attr(y, "received"))  # noqa: E731
         outs = lambda x: is_len_of(x, lambda y: isinstance(y, ast.Attribute) and y.attr == "output_ports" and is_self_attr(y.value, "workflow"))  # noqa: E731
         if not ((rec(a) and outs(b)) or (rec(b) and outs(a))):
             continue
         cl_nodes = [i for i in wg.nodes if any(self_call(c, "close") and _awaited(c) for c in node_calls(wg, wg.nodes[i]))]
         # first effective statement of the true branch (`pass` / logging / docstrings in front of it do not matter)
-        tsucc = wg.real_succ(n.id, "t")
+        tsucc = wg.real_succ(n.id, edge)
         recs = [i for i in wg.nodes if any(
             method_call(c, "append") and is_self_attr(c.func.value, "received") for c in node_calls(wg, wg.nodes[i]))]
-        ok = (isinstance(n.ast.ops[0], (ast.Eq, ast.GtE)) and (rec(a) or isinstance(n.ast.ops[0], ast.Eq)) and bool(cl_nodes)
+        ok = (isinstance(cmp_.ops[0], (ast.Eq, ast.GtE)) and (rec(a) or isinstance(cmp_.ops[0], ast.Eq)) and bool(cl_nodes)
               and bool(tsucc) and all(s in cl_nodes for s in tsucc) and bool(recs) and wg.dominates(recs, n.id))
     ctx.ob("R4", "_wait_outputs closes the executor when the last output port terminated", ok, func=wo, node=wo.node, instance="_wait_outputs:close",
            message="_wait_outputs does not close the executor exactly when every output port delivered its termination token")
     _cancel_rule(ctx)
+
+
+
+def _term_atom(p, f, a) -> bool:
+    """`a` is a termination-token test (`isinstance(x, TerminationToken)` / `check_termination(x)`), or a local that
+    only ever holds the result of one."""
+    if isinstance(a, ast.NamedExpr):
+        a = a.value
+    if isinstance(a, ast.Name):
+        os_ = [o for o in orig(f, a) if not (isinstance(o, ast.Name) and o.id == a.id)]
+        return bool(os_) and all(termination_subject(p, f, o) is not None for o in os_)
+    return termination_subject(p, f, a) is not None
+
+
+def _failing_edge(p, f, test, subject_pred):
+    """How a test decides on a FAILED/CANCELLED status, independent of its spelling (`in (..)` / `not in` with the
+    branches swapped / `==` joined by `or` / `!=` joined by `and` / joined with other conditions by `and`).
+    Returns (relevant, edge, rest): `relevant` -- some atom of the test compares a subject accepted by `subject_pred`
+    with Status constants; `edge` -- 't'/'f', the edge that is taken exactly when the status is FAILED or CANCELLED
+    and the remaining atoms `rest` [(atom, truth)] hold, or None when no edge means exactly that."""
+    members = set(status_members(p))
+    relevant, found = False, []
+    for kind in ("t", "f"):
+        sets_, rest = [], []
+        for a, v in atoms(test, kind == "t"):
+            r = fold_status_guard(p, f, a)
+            if r is not None and subject_pred(r[0]):
+                relevant = True
+                sets_.append(r[1] if v else members - r[1])
+            else:
+                rest.append((a, v))
+        if sets_ and set.intersection(*sets_) == FAILING:
+            found.append((kind, rest))
+    if len(found) == 1:
+        return relevant, found[0][0], found[0][1]
+    return relevant, None, []
+
+
+def _returns_flag(f, attr):
+    """(ok, why): every normally finishing path of `f` returns `self.<attr>` as it is at the return: either the
+    attribute itself or a local whose reaching definitions (bound 3) are all plain copies of it with no suspension
+    point between the copy and the return (a copy taken before an await is stale)."""
+    g = f.cfg
+    susp = set(g.suspension_nodes())
+    rets = [n for n in g.nodes.values() if n.kind == "return"]
+    if not rets:
+        return False, "no return statement"
+    if g.escape(g.entry, [n.id for n in rets], targets=[g.exit]) is not None:
+        return False, "a path finishes without a return"
+
+    def flag(e, use, uid, depth):
+        if e is None:
+            return False
+        if is_self_attr(e, attr):
+            return True
+        if not isinstance(e, ast.Name) or depth <= 0:
+            return False
+        ds = reaching_defs(f, e.id, use)
+        if not ds:
+            return False
+        for d in ds:
+            if d.kind not in ("assign", "walrus") or d.index is not None or d.value is None:
+                return False
+            ids = _def_node_ids(g, d)
+            if not ids:
+                return False
+            for di in ids:
+                if g.nodes[di].has_await():
+                    return False
+                after = g.reach([di])
+                if any(s in after and uid in g.reach([s]) for s in susp if s != uid):
+                    return False
+                if not flag(d.value, d.stmt, di, depth - 1):
+                    return False
+        return True
+
+    for r in rets:
+        if not flag(r.ast.value, r.ast, r.id, 3):
+            return False, f"`{r.text(60)}` is not the current value of self.{attr}"
+    return True, ""
 
 
 def _state_paths(ctx, f, what):
@@ -1111,14 +1208,13 @@ def r5(ctx):
         for n in g.nodes.values():
             if n.kind != "test" or n.id not in body:
                 continue
-            r = fold_status_guard(p, f, n.ast)
-            if r is None:
+            relevant, edge, rest = _failing_edge(p, f, n.ast, lambda subj: subj == unparse(val) or subj == f"{lst}[-1]")
+            if not relevant or not (g.dominates(n.id, i) or g.dominates(i, n.id)):
                 continue
-            subj, truth = r
-            same = subj == unparse(val) or subj == f"{lst}[-1]"
-            if not same or not (g.dominates(n.id, i) or g.dominates(i, n.id)):
+            if edge is None or rest:
+                why = "the guard next to it is not taken exactly for FAILED/CANCELLED"
                 continue
-            tsucc = branch_succ(g, n.id, "t")
+            tsucc = branch_succ(g, n.id, edge)
             region = g.reach(tsucc, avoid=[head, n.id], include_src=True)
             cancel_ok = False
             for lp in [x for x in f.body_nodes() if isinstance(x, ast.For) and isinstance(x.target, ast.Name)]:
@@ -1133,9 +1229,7 @@ def r5(ctx):
                 if loop_unconditional(g, hid[0], cn)[0]:
                     if all(s == hid[0] or g.path(s, [head], avoid=hid) is None for s in tsucc):
                         cancel_ok = True
-            if truth != FAILING:
-                why = f"the guard is true for {sorted(truth)} instead of FAILED/CANCELLED"
-            elif not cancel_ok:
+            if not cancel_ok:
                 why = "the guard does not cancel every task of the pending set"
             else:
                 ok, why = True, ""
@@ -1665,6 +1759,45 @@ VARIANTS = [
     V("Transformer.run re-raises cancellation without terminating", SFILE, _S + "Transformer.run", "except asyncio.CancelledError:\n        await self.terminate(Status.CANCELLED)", "except asyncio.CancelledError:\n        raise", "R2"),
     V("_run_job returns a constant", SFILE, _S + "ExecuteStep._run_job", "return job_status", "return Status.COMPLETED", "R5"),
     V("_cancel forgets to cancel", EFILE, f"{EXEC}._cancel", "for task in tasks:\n            task.cancel()\n        ", "", "R4"),
+    # ---- fix5: spelling-agnostic recognisers (temporaries before a return, swapped branches, guard clauses, `and`-joined tests)
+    V("benign: closed() returns the flag through a temporary", EFILE, f"{EXEC}.closed", "return self._closed", "_sf_ret = self._closed\n    return _sf_ret", None),
+    V("benign: closed() returns the flag through two temporaries", EFILE, f"{EXEC}.closed", "return self._closed", "flag = self._closed\n    result = flag\n    return result", None),
+    V("closed() returns a copy of the flag taken before it waits for the closing event", EFILE, f"{EXEC}.closed",
+      "if self._closing is not None:\n        await self._closing.wait()\n    return self._closed",
+      "state = self._closed\n    if self._closing is not None:\n        await self._closing.wait()\n    return state", "R4"),
+    V("closed() returns a temporary that holds something else", EFILE, f"{EXEC}.closed", "return self._closed", "_sf_ret = self._closing is not None\n    return _sf_ret", "R4"),
+    V("closed() returns the flag on one path only", EFILE, f"{EXEC}.closed", "return self._closed", "if self._closed:\n        return self._closed", "R4"),
+    V("benign: _wait_outputs status test with swapped branches", EFILE, f"{EXEC}._wait_outputs",
+      "if token.value in (Status.CANCELLED, Status.FAILED):\n                await self._cancel(unfinished)\n                return output_tokens\n            else:\n                self.received.append(task_name)\n                if len(self.received) == len(self.workflow.output_ports):\n                    await self.close()",
+      "if not token.value in (Status.CANCELLED, Status.FAILED):\n                self.received.append(task_name)\n                if len(self.received) == len(self.workflow.output_ports):\n                    await self.close()\n            else:\n                await self._cancel(unfinished)\n                return output_tokens", None),
+    V("benign: _wait_outputs with both tests swapped (elif chain)", EFILE, f"{EXEC}._wait_outputs",
+      "if isinstance(token, TerminationToken):\n            if token.value in (Status.CANCELLED, Status.FAILED):\n                await self._cancel(unfinished)\n                return output_tokens\n            else:\n                self.received.append(task_name)\n                if len(self.received) == len(self.workflow.output_ports):\n                    await self.close()\n        else:\n            output_tokens[task_name] = get_token_value(token)\n            if task_name not in self.received:\n                self.output_tasks[task_name] = asyncio.create_task(self._handle_exception(asyncio.create_task(self.workflow.get_output_port(task_name).get(output_consumer))), name=task_name)",
+      "if not isinstance(token, TerminationToken):\n            output_tokens[task_name] = get_token_value(token)\n            if task_name not in self.received:\n                self.output_tasks[task_name] = asyncio.create_task(self._handle_exception(asyncio.create_task(self.workflow.get_output_port(task_name).get(output_consumer))), name=task_name)\n        elif token.value not in (Status.CANCELLED, Status.FAILED):\n            self.received.append(task_name)\n            if len(self.received) == len(self.workflow.output_ports):\n                await self.close()\n        else:\n            await self._cancel(unfinished)\n            return output_tokens", None),
+    V("benign: _wait_outputs termination and status tests joined by `and`", EFILE, f"{EXEC}._wait_outputs",
+      "if isinstance(token, TerminationToken):\n            if token.value in (Status.CANCELLED, Status.FAILED):\n                await self._cancel(unfinished)\n                return output_tokens\n            else:\n                self.received.append(task_name)",
+      "if isinstance(token, TerminationToken) and token.value in (Status.CANCELLED, Status.FAILED):\n            await self._cancel(unfinished)\n            return output_tokens\n        elif isinstance(token, TerminationToken):\n            if False:\n                pass\n            else:\n                self.received.append(task_name)", None),
+    V("benign: _wait_outputs close test spelled with != and an else", EFILE, f"{EXEC}._wait_outputs",
+      "if len(self.received) == len(self.workflow.output_ports):\n                    await self.close()",
+      "if len(self.received) != len(self.workflow.output_ports):\n                    pass\n                else:\n                    await self.close()", None),
+    V("_wait_outputs swapped branches, cancels only on FAILED", EFILE, f"{EXEC}._wait_outputs",
+      "if token.value in (Status.CANCELLED, Status.FAILED):\n                await self._cancel(unfinished)\n                return output_tokens\n            else:\n                self.received.append(task_name)\n                if len(self.received) == len(self.workflow.output_ports):\n                    await self.close()",
+      "if token.value not in (Status.FAILED,):\n                self.received.append(task_name)\n                if len(self.received) == len(self.workflow.output_ports):\n                    await self.close()\n            else:\n                await self._cancel(unfinished)\n                return output_tokens", "R4"),
+    V("_wait_outputs status test negated without swapping the branches", EFILE, f"{EXEC}._wait_outputs",
+      "if token.value in (Status.CANCELLED, Status.FAILED):", "if token.value not in (Status.CANCELLED, Status.FAILED):", "R4"),
+    V("_wait_outputs cancels on a failed token only under a further condition", EFILE, f"{EXEC}._wait_outputs",
+      "if token.value in (Status.CANCELLED, Status.FAILED):", "if token.value in (Status.CANCELLED, Status.FAILED) and unfinished:", "R4"),
+    V("_wait_outputs close test negated without swapping the branches", EFILE, f"{EXEC}._wait_outputs",
+      "if len(self.received) == len(self.workflow.output_ports):", "if len(self.received) != len(self.workflow.output_ports):", "R4"),
+    V("benign: executor.run status check as a guard clause", EFILE, f"{EXEC}.run",
+      "if step.status in [Status.FAILED, Status.CANCELLED]:\n                raise WorkflowExecutionException('FAILED Workflow execution')",
+      "if step.status not in [Status.FAILED, Status.CANCELLED]:\n                continue\n            raise WorkflowExecutionException('FAILED Workflow execution')", None),
+    V("executor.run status check negated", EFILE, f"{EXEC}.run", "if step.status in [Status.FAILED, Status.CANCELLED]:", "if step.status not in [Status.FAILED, Status.CANCELLED]:", "R4"),
+    V("executor.run raises for a failed step only under a further condition", EFILE, f"{EXEC}.run",
+      "if step.status in [Status.FAILED, Status.CANCELLED]:", "if step.status in [Status.FAILED, Status.CANCELLED] and output_tokens:", "R4"),
+    V("benign: ExecuteStep.run job-result test with swapped branches", SFILE, _S + "ExecuteStep.run",
+      "if job_status in (Status.CANCELLED, Status.FAILED):\n                        for t in unfinished:\n                            t.cancel()\n                    statuses.append(job_status)",
+      "if job_status not in (Status.CANCELLED, Status.FAILED):\n                        pass\n                    else:\n                        for t in unfinished:\n                            t.cancel()\n                    statuses.append(job_status)", None),
+    V("ExecuteStep.run job-result test negated", SFILE, _S + "ExecuteStep.run", "if job_status in (Status.CANCELLED, Status.FAILED):", "if job_status not in (Status.CANCELLED, Status.FAILED):", "R5"),
     # ---- R6
     V("FAILED reduced to CANCELLED constant swap", SFILE, REDUCE, "case Status.FAILED:\n                return Status.FAILED", "case Status.FAILED:\n                return Status.COMPLETED", "R6"),
     V("CANCELLED no longer dominates", SFILE, REDUCE, "            case Status.CANCELLED:\n                return Status.CANCELLED\n", "", "R6"),
